@@ -113,7 +113,7 @@ impl Serialize for String {
     fn deserialize(bytes: &[u8]) -> Result<Self, DbError> {
         let len = usize::deserialize(bytes)?;
         let begin = len.serialized_size() as usize;
-        let end = begin + len;
+        let end = begin.saturating_add(len);
 
         Ok(String::from_utf8(
             bytes
@@ -204,7 +204,7 @@ impl Serialize for Vec<u8> {
     fn deserialize(bytes: &[u8]) -> Result<Self, DbError> {
         let len = usize::deserialize(bytes)?;
         let begin = len.serialized_size() as usize;
-        let end = begin + len;
+        let end = begin.saturating_add(len);
 
         Ok(bytes
             .get(begin..end)
